@@ -416,7 +416,10 @@ def mon_prio(ls, out):
         last = p[2]
     if last is not None:
         data = last.split(" | ")[2]
-        rest = [] if data == "-" else [int(x) for x in data.split(",")]
+        toks = [] if data == "-" else data.split(",")
+        if any(not x.lstrip("-").isdigit() for x in toks):
+            return "priority_queue_node's occupied range contains a slot that holds no item (dump %s): expected buffer %s" % (data, sorted(buf))
+        rest = [int(x) for x in toks]
         if sorted(rest) != sorted(buf):
             return "priority_queue_node lost or duplicated items: expected buffer %s, found %s" % (sorted(buf), sorted(rest))
     return None
